@@ -242,6 +242,9 @@ func (i *interpreter) lookupExternal(fn *ssa.Function, name string) externalFn {
 	if f, ok := stringFuncs[name]; ok {
 		return f
 	}
+	if f, ok := jsonFuncs[name]; ok {
+		return f
+	}
 	return nil
 }
 
